@@ -91,8 +91,8 @@ type fakeTracker struct {
 	url string
 }
 
-func (f *fakeTracker) URL() string                         { return f.url }
-func (f *fakeTracker) GetState() (tracker.State, error)    { return tracker.Ready, nil }
+func (f *fakeTracker) URL() string                      { return f.url }
+func (f *fakeTracker) GetState() (tracker.State, error) { return tracker.Ready, nil }
 func (f *fakeTracker) Announce(ctx context.Context, hash []byte, myid []byte, want int, size int64, port4, port6 int, proxy string, cb func(netip.AddrPort) bool) error {
 	m := f.m
 	w := m.w.Load()
